@@ -1461,6 +1461,99 @@ def search_const_history(ctx, rng, counts, deep):
             examine_history(ctx, spec, hist, [rng.randrange(2 ** 31) for _ in hist], rng, counts, deep, with_laws=False)
 
 
+# ------------------------------------------------------------------------ large sparse samples
+def _primes(lo, hi):
+    sieve = np.ones(hi + 1, dtype=bool)
+    sieve[:2] = False
+    for i in range(2, int(hi ** 0.5) + 1):
+        if sieve[i]:
+            sieve[i * i::i] = False
+    return [int(p_) for p_ in np.flatnonzero(sieve) if p_ >= lo]
+
+
+def sparse_sample(rng, n, layout):
+    """`n` zeros (or another base value) with 5..20 non-zero entries at PRIME positions > 50, i.e. off every
+    small stride (position % s != 0 for all s < 50)"""
+    k = rng.randint(5, 20)
+    pr = _primes(53, n - 1)
+    if layout == 'clustered-at-end':
+        pos = pr[-k:]
+    elif layout == 'spread':
+        pos = [pr[int(i * (len(pr) - 1) / (k - 1))] for i in range(k)]
+    else:
+        pos = rng.sample(pr, k)
+    base = rng.choice([0.0, 0.0, 1.0, -3.5])
+    x = np.full(n, base)
+    for p_ in pos:
+        x[p_] = base + rng.choice([-1, 1]) * rng.uniform(0.5, 20.0)
+    return x, sorted(pos)
+
+
+def examine_sparse(ctx, spec, n, layout, seed, counts):
+    """a large NON-constant sample (a few values differ) must not be modelled as the point mass: `_constant_value`
+    is None, the fitted scale is positive, and the C03 laws hold on it"""
+    rng = vc.rng_for(seed, 'sparse', n, layout)
+    data, pos = sparse_sample(rng, n, layout)
+    m = fit(spec, data)
+    if isinstance(m, tuple):
+        ctx.count(f'sparse.{spec["cls"]}.fit-raises')
+        return
+    inst = inst_of(m)
+    icls = type(inst).__name__
+    ctx.count(f'sparse.{icls}.{n}.{layout}')
+    counts['checks'] += 2
+    key = f'{icls}.fit:non-constant-sample-fitted-as-point-mass'
+    inp = {'spec': spec, 'n': n, 'layout': layout, 'seed': seed, 'law': 'sparse', 'nonzero_positions': pos,
+           'distinct_values': int(len(np.unique(data)))}
+    problem = None
+    if inst._constant_value is not None:
+        problem = {'_constant_value': float(inst._constant_value), 'distinct_values_in_sample': int(len(np.unique(data)))}
+    elif 'scale' in (inst._params or {}) and not float(inst._params['scale']) > 0:
+        problem = {'fitted_scale': float(inst._params['scale'])}
+    if problem is not None:
+        r = call(m.cumulative_distribution, np.array([float(np.min(data)) - 1, float(np.median(data)), float(np.max(data))]))
+        problem['cdf at min-1, median, max'] = r[1].tolist() if r[0] == 'ok' else r[1]
+        counts['failures'] += 1
+        if sum(1 for f in ctx.failing if f['class'] == key) < 3:
+            ctx.fail_input(f'{spec["cls"]}.fit', inp, problem,
+                           'a sample with more than one distinct value is not fitted as the point mass '
+                           '(_constant_value is None, scale > 0)', key)
+        return
+    fails = []
+    d = np.asarray(inst._params['dataset'], dtype=float).ravel() if is_kde(m) else data
+    counts['checks'] += laws(model_fns(m), d, rng, lambda *a: fails.append(a))
+    fails = [f for f in fails if class_key(spec, m, f[0]) not in KNOWN_SINGLE_FIT]
+    if fails:
+        kind, i2, obs, req = fails[0]
+        counts['failures'] += 1
+        k2 = class_key(spec, m, kind) + ':large-sparse-sample'
+        if sum(1 for f in ctx.failing if f['class'] == k2) < 3:
+            ctx.fail_input(entry(spec['cls'], kind), dict(inp, **{'at': i2}), obs, req, k2)
+
+
+def search_sparse(ctx, rng, counts, deep):
+    sizes = [4096, 4097, 5000, 8192, 20000]
+    layouts = ['clustered-at-end', 'spread', 'random-primes']
+    specs = [{'cls': 'GaussianUnivariate', 'opts': {}}, {'cls': 'UniformUnivariate', 'opts': {}},
+             {'cls': 'GaussianKDE', 'opts': {'sample_size': 40, 'np_seed': 7}},
+             {'cls': 'Univariate', 'opts': {'candidates': ['GaussianUnivariate', 'UniformUnivariate']}}]
+    plan = [(s_, n, lay) for s_ in specs for n in sizes for lay in layouts]
+    if not deep:
+        # every size and every layout at least once per run, the class rotating
+        rng.shuffle(plan)
+        seen, keep = set(), []
+        for s_, n, lay in plan:
+            tags = {('n', n), ('l', lay), ('c', s_['cls'])}
+            if not tags <= seen or len(keep) < 8:
+                keep.append((s_, n, lay))
+                seen |= tags
+            if len(keep) >= 10:
+                break
+        plan = keep
+    for s_, n, lay in plan:
+        examine_sparse(ctx, dict(s_, opts=dict(s_['opts'])), n, lay, rng.randrange(2 ** 31), counts)
+
+
 # ------------------------------------------------------------------------ one large batch
 def examine_batch(ctx, spec, data, big_n, seed, counts):
     """ONE call with `big_n` sorted probes must equal the same probes evaluated in chunks of 100 (every output
@@ -2315,6 +2408,7 @@ def search(ctx, deep):
     search_shared(ctx, ctx.rng('search-shared'), counts, deep)
     search_history(ctx, ctx.rng('search-history'), counts, deep)
     search_const_history(ctx, ctx.rng('search-const-history'), counts, deep)
+    search_sparse(ctx, ctx.rng('search-sparse'), counts, deep)
     search_batch(ctx, ctx.rng('search-batch'), counts, deep)
     for rep in range(reps):
         for cls in ALL + ('Univariate',):
@@ -2365,6 +2459,9 @@ def replay(ctx, payload):
         dts = inp.get('dtypes') or ['float64'] * len(inp['history'])
         examine_history(ctx, inp['spec'], [np.array(d, dtype=float).astype(t) for d, t in zip(inp['history'], dts)], inp['seeds'],
                         vc.rng_for(0, 'replay'), counts, True)
+        return any(f['class'] == payload.get('class') for f in ctx.failing[before:])
+    if inp.get('law') == 'sparse':
+        examine_sparse(ctx, inp['spec'], inp['n'], inp['layout'], inp['seed'], counts)
         return any(f['class'] == payload.get('class') for f in ctx.failing[before:])
     if inp.get('law') == 'composition':
         examine_composition(ctx, inp['spec'], np.array(inp['data'], dtype=float), inp['seed'], counts)
